@@ -4,6 +4,7 @@ import Driver.C04
 import Driver.C05
 import Driver.C06
 import Driver.C10
+import Driver.C12
 import Driver.C14
 import Driver.C15
 import Driver.C16
@@ -20,6 +21,7 @@ def dispatch (line : String) : String :=
   | "C05" :: args => Driver.C05.handle args
   | "C06" :: args => Driver.C06.handle args
   | "C10" :: args => Driver.C10.handle args
+  | "C12" :: args => Driver.C12.handle args
   | "C14" :: args => Driver.C14.handle args
   | "C15" :: args => Driver.C15.handle args
   | "C16" :: args => Driver.C16.handle args
